@@ -102,6 +102,11 @@ class World:
         key = self.key(ki)
         return Agg('adt', 'Signed', 0, [msg, key, c04.GhostSig(msg, key, ok_)]), ok_
 
+    def config(self):
+        return self.mkb.adt(r'zksync_consensus_bft::config::Config', engine_manager=BoxV(Opaque('engine_manager')), secret_key=Opaque('my_secret_key'),
+                            max_payload_size=Num(1 << 20, 64), view_timeout=Opaque('view_timeout'), epoch=self.mkr.tuple_struct(V + r'consensus::EpochNumber', self.e0),
+                            first_block=self.mkr.tuple_struct(V + r'block::BlockNumber', self.first_block), validators=self.sched)
+
     # ---- replica state
     def state(self, caches=None, light=False):
         ex = self.ex; mkb = self.mkb
@@ -129,9 +134,7 @@ class World:
         if st['tqc'] is not None: just.append(st['tqc']['view'].e + 1 == view.e)
         if st['cqc'] is not None: just.append(st['cqc']['view'].e + 1 >= view.e)
         ex.assume(z3.Or(*just))
-        cfg = mkb.adt(r'zksync_consensus_bft::config::Config', engine_manager=BoxV(Opaque('engine_manager')), secret_key=Opaque('my_secret_key'),
-                      max_payload_size=Num(1 << 20, 64), view_timeout=Opaque('view_timeout'), epoch=self.mkr.tuple_struct(V + r'consensus::EpochNumber', self.e0),
-                      first_block=self.mkr.tuple_struct(V + r'block::BlockNumber', self.first_block), validators=self.sched)
+        cfg = self.config()
         caches = caches or {}
         self.proposer_watch = M.WatchV(none())
         sm = mkb.adt(SM + r'StateMachine', config=BoxV(cfg), outbound_channel=Opaque('outbound'), inbound_channel=Opaque('inbound'), proposer_sender=self.proposer_watch,
